@@ -87,6 +87,25 @@ var fixedPlans = map[string]plan{
 		{Method: "SETUP", PathSym: "live", Track: "video", Trans: "tcp"},
 		{Method: "PLAY", PathSym: "live"},
 	}},
+	// a refused SETUP whose URI carries escaped CR LF must still be answered by one well-formed response
+	"setup-unknown-control-with-escaped-crlf": {Transport: "tcp", End: "close", Steps: []step{
+		{Method: "DESCRIBE", PathSym: "live"},
+		{Method: "SETUP", PathSym: "live", Track: "video", Trans: "tcp", Deco: "%0D%0A%0D%0ARTSP/1.0%20200%20OK", DecoAt: "control"},
+		{Method: "SETUP", PathSym: "live", Track: "video", Trans: "tcp", Deco: "%0D%0ACSeq:%2099", DecoAt: "query"},
+		{Method: "SETUP", PathSym: "live", Track: "video", Trans: "tcp", HdrDeco: "transport"},
+		{Method: "PLAY", PathSym: "live", HdrDeco: "range", Deco: "%0D%0A", DecoAt: "segment"},
+	}},
+	"setup-unknown-control-with-escaped-crlf-ws": {Transport: "ws", WSPathSym: "live", End: "close", Steps: []step{
+		{Method: "DESCRIBE", PathSym: "live"},
+		{Method: "SETUP", PathSym: "live", Track: "video", Trans: "tcp", Deco: "%0D%0A%0D%0A", DecoAt: "control"},
+		{Method: "OPTIONS", PathSym: "live", Deco: "%0D%0A", DecoAt: "segment"},
+	}},
+	"setup-unknown-control-with-escaped-crlf-wsp": {Transport: "wsp", WSPathSym: "live", End: "close", Steps: []step{
+		{Method: "DESCRIBE", PathSym: "live"},
+		{Method: "SETUP", PathSym: "live", Track: "audio", Trans: "tcp", Deco: "%0D%0A%0D%0A", DecoAt: "control"},
+		{Method: "SETUP", PathSym: "live", Track: "video", Trans: "tcp"},
+		{Method: "PLAY", PathSym: "live"},
+	}},
 	"legal-play-wsp": {Transport: "wsp", WSPathSym: "live", WSPData: true, End: "close", CheckFrames: true, Steps: []step{
 		{Method: "OPTIONS", PathSym: "live"},
 		{Method: "DESCRIBE", PathSym: "live"},
